@@ -10,11 +10,16 @@ import toy
 REQUIRED_THEOREMS = [
     'C02_shapeEta_routing', 'C02_call_offsets', 'C02_kinds', 'C02_every_kind_usable',
     'C02_truncGauss_counterexample', 'C02_ids', 'C02_names_length', 'C02_name_of_position',
-    'cutSpecial_routing', 'cutSpecial_length']
+    'cutSpecial_routing', 'cutSpecial_length',
+    'C02_default_top_name_of_position', 'C02_default_cov_name_of_position', 'C02_hetero_name_matches_value',
+    'C02_reset_forgets_naming_history', 'C02_rename_name_of_position', 'C02_setNIds_names']
 RULE = ('random compositions of 1-4 population sub-models (Gaussian / log-normal centred and non-centred, '
         'truncated Gaussian, pooled, heterogeneous; 1-3 dims each; covariate wrappers with 1-2 covariates and '
         'random selections; optional ReducedPopulationModel with fixed subsets; bare or composed), 1-4 '
-        'individuals with real chi.LogLikelihoods on a toy mechanistic model; thorough adds every composition '
+        'individuals with real chi.LogLikelihoods on a toy mechanistic model; in ~40% of the cases a naming '
+        'history on the population model (set_parameter_names with a list / None / no argument, set_dim_names, '
+        'reset of one sub-model) before or after it learns the number of individuals, and a rename / reset '
+        'while the hierarchical likelihood is in use, replayed by the Lean name model; thorough adds every composition '
         'of <=3 sub-models with dims <=2; non-trivial = a pooled/heterogeneous block that is not last, or a '
         'covariate / reduced wrapper, or >=3 sub-models; distinct = distinct (kinds, dims, wrappers)')
 ASSUMPTIONS = ['individual likelihoods are arbitrary functions of their parameter row (chi.LogLikelihood on the '
@@ -73,6 +78,70 @@ def stored_selection(code, nd, nc, sel, n_ids):
     if sel is None:
         return [[p, d] for p in range(per_dim(code, n_ids)) for d in range(nd)]
     return sorted({(int(p), int(d)) for p, d in sel})
+
+
+class NameHistory:
+    """the calls that change which names the population model publishes (construction, set_parameter_names
+    with a list / with None, set_dim_names, set_n_ids), logged in the order in which they are made on the chi
+    object and replayed by the Lean model (ChiModel/TopNames.lean, op `C02.names`); `names()` is what the
+    population model has to publish now — the reference that is independent of chi"""
+
+    def __init__(self, ctx, subs, n_ids, bare):
+        self.ctx = ctx
+        self.composed = not bare
+        self.msubs = [[c, nd, nc, [list(p) for p in stored_selection(c, nd, nc, sel, n_ids)]]
+                      for c, nd, nc, sel in subs]
+        # make_sub sizes a heterogeneous model before it is wrapped in a covariate model; all others start
+        # with the constructor's single individual
+        self.n0 = [n_ids if (c == 6 and nc) else 1 for c, _, nc, _ in subs]
+        self.ops = []
+        self._cache = None
+
+    def log(self, *op):
+        self.ops.append(list(op))
+        self._cache = None
+
+    def names(self, then=None):
+        """names after the logged history (and, not logged, after the further call `then`)"""
+        if then is None and self._cache is not None:
+            return list(self._cache)
+        ops = self.ops + ([list(then)] if then is not None else [])
+        out = self.ctx.model('C02.names', self.composed, self.msubs, self.n0, ops)[0][-1]
+        if isinstance(out, str):
+            raise RuntimeError('name history not accepted by the model: %r' % (ops,))
+        if then is None:
+            self._cache = list(out)
+        return list(out)
+
+
+def name_history_step(ctx, rng, pm, nh, inp, composed, tag):
+    """one call of the naming API on the population model `pm` (any wrapper), logged in `nh`"""
+    r = rng.random()
+    n_par = pm.n_parameters()
+    if r < 0.35:
+        new = ['%s%d' % (tag, j) for j in range(n_par)]
+        pm.set_parameter_names(new)
+        nh.log(1, new)
+    elif r < 0.70 or (r >= 0.85 and not composed):
+        if rng.random() < 0.5:
+            pm.set_parameter_names(None)
+        else:
+            pm.set_parameter_names()
+        nh.log(0)
+    elif r < 0.85:
+        dims = ['%sx%d' % (tag, j) for j in range(pm.n_dim())]
+        pm.set_dim_names(dims)
+        nh.log(2, dims)
+    else:
+        subs_c = pm.get_population_models()
+        k = int(rng.integers(len(subs_c)))
+        subs_c[k].set_parameter_names(None)
+        nh.log(4, k)
+    inp['name_history'] = [list(o) for o in nh.ops]
+    ref = nh.names()
+    got = list(pm.get_parameter_names())
+    ctx.agree('C02.population_names', got, ref, inp)
+    ctx.spec('C02.population_names_describe_positions/' + tag, got == ref, inp, {'chi': got, 'expected': ref})
 
 
 def spec_hier(subs, n_ids, bottom, top_full, cov, lls):
@@ -168,18 +237,26 @@ def run_case(ctx, chi, rng, n_ids, subs, tag='gen'):
     # the reduced cases the user wraps and fixes BEFORE the model has seen it (a heterogeneous model then
     # still has its one-individual parameter table)
     late_n_ids = reduced and not any(nc for c, _, nc, _ in subs if c == 6) and rng.random() < 0.5
-    names_before = pm.get_parameter_names() if late_n_ids else None
-    pm_early = pm
+    # the names the population model publishes are state: the user may rename the parameters / the
+    # dimensions and go back to the defaults at any time, before or after the model learns the number of
+    # individuals. `nh` replays every such call in the Lean model; its names are the reference from here on
+    nh = NameHistory(ctx, subs, n_ids, bare)
+    history = rng.random() < 0.4
+    hist_early = rng.random() < 0.5
+    if history and (hist_early or late_n_ids):
+        for _ in range(int(rng.integers(1, 4))):
+            name_history_step(ctx, rng, pm, nh, inp, not bare, 'early')
     if late_n_ids:
-        models2 = [make_sub(chi, *s, n_ids=n_ids) for s in subs]
-        pm_twin = models2[0] if bare else chi.ComposedPopulationModel(models2)
-        pm_twin.set_n_ids(n_ids)
-        full_top_names = pm_twin.get_parameter_names()
-        n_top_full = pm_twin.n_parameters()
+        names_before = nh.names()
+        full_top_names = nh.names(then=(3, n_ids))
     else:
         pm.set_n_ids(n_ids)
-        full_top_names = pm.get_parameter_names()
-        n_top_full = pm.n_parameters()
+        nh.log(3, n_ids)
+        if history and not hist_early:
+            for _ in range(int(rng.integers(1, 4))):
+                name_history_step(ctx, rng, pm, nh, inp, not bare, 'sized')
+        full_top_names = nh.names()
+    n_top_full = len(full_top_names)
     top_full = rng.uniform(0.4, 1.6, n_top_full)
     # covariate coefficients small
     t = 0
@@ -209,6 +286,8 @@ def run_case(ctx, chi, rng, n_ids, subs, tag='gen'):
     except Exception as e:  # noqa
         ctx.spec('C02.every_kind_usable/construct', False, inp, {'raised': repr(e)[:200]})
         return
+    if late_n_ids:
+        nh.log(3, n_ids)        # the hierarchical likelihood has announced the number of individuals
     nH = sum(nd for c, nd, _, _ in subs if c not in (5, 6))
     bottom = rng.uniform(0.4, 1.6, n_ids * nH)
     params = np.concatenate([bottom, top_full[free_mask]])
@@ -227,9 +306,10 @@ def run_case(ctx, chi, rng, n_ids, subs, tag='gen'):
     # --- model
     ids = [ll.get_id() for ll in lls]
     msubs = [[c, nd, nc, [list(p) for p in stored_selection(c, nd, nc, sel, n_ids)]] for c, nd, nc, sel in subs]
+    ref_top = [n for n, free in zip(nh.names(), free_mask) if free]
     mo = ctx.model('C02.call', False, n_ids, msubs, list(np.concatenate([bottom, top_full])),
                    [] if cov is None else [list(r) for r in cov], lls[0].get_parameter_names(),
-                   pm.get_parameter_names(), ids)
+                   ref_top, ids)
     ctx.spec('C02.every_kind_usable', not isinstance(out, str), inp, {'chi': out})
     if isinstance(out, str):
         ctx.errkinds.add(out)
@@ -265,34 +345,52 @@ def run_case(ctx, chi, rng, n_ids, subs, tag='gen'):
                     for i in range(n_ids)]
         routed_m = [[x for x in row if x is not None] for row in shaped]
         ctx.agree('C02.shape_eta_routing', routed_c, routed_m, inp)
-    try:
-        # layout / names / ids
-        names_c = hll.get_parameter_names()
-        ctx.agree('C02.names', names_c, names_m, inp)
-        # (with fixed population parameters the model's None-block is cut to the free ones: C08)
-        ctx.agree('C02.ids', hll.get_id(), ids_m[:nb_m] + [None] * int(np.sum(free_mask)), inp)
-        ctx.agree('C02.n_parameters', hll.n_parameters(), nb_m + int(np.sum(free_mask)), inp)
-        ctx.agree('C02.n_bottom', hll.n_parameters() - hll.n_parameters(exclude_bottom_level=True), nb_m, inp)
-        # --- the property on the real code
-        exp_bottom_names = []
-        llnames = lls[0].get_parameter_names()
-        dcol = 0
-        keep = []
-        for c, nd, _, _ in subs:
-            if c not in (5, 6):
-                keep += list(range(dcol, dcol + nd))
-            dcol += nd
-        exp_names = [llnames[d] for d in keep] * n_ids + list(pm.get_parameter_names())
-        exp_ids = [i for i in ids for _ in keep] + [None] * int(np.sum(free_mask))
-        ctx.spec('C02.names_describe_positions', names_c == exp_names, inp, {'chi': names_c, 'expected': exp_names})
-        ctx.spec('C02.ids_describe_positions', list(hll.get_id()) == exp_ids, inp,
-                 {'chi': list(hll.get_id()), 'expected': exp_ids})
-        with_ids = hll.get_parameter_names(include_ids=True)
-        ctx.spec('C02.names_with_ids', with_ids == [(i + ' ' + n) if i else n for i, n in zip(exp_ids, exp_names)], inp)
-        ctx.spec('C02.n_parameters', hll.n_parameters() == len(exp_names) == len(params) and
-                 hll.n_parameters(exclude_bottom_level=True) == int(np.sum(free_mask)), inp)
-    except Exception as e:  # noqa
-        ctx.spec('C02.names_ids_raise', False, inp, {'raised': repr(e)[:300]})
+    llnames = lls[0].get_parameter_names()
+    dcol = 0
+    keep = []
+    for c, nd, _, _ in subs:
+        if c not in (5, 6):
+            keep += list(range(dcol, dcol + nd))
+        dcol += nd
+    n_free = int(np.sum(free_mask))
+
+    def expected_names():
+        ref_free = [n for n, free in zip(nh.names(), free_mask) if free]
+        return ([llnames[d] for d in keep] * n_ids + ref_free, [i for i in ids for _ in keep] + [None] * n_free,
+                ref_free)
+
+    def observe_names(stage, names_m=None):
+        """names / IDs / counts at the property's observation points, against the reference: the individual
+        likelihood's names of the dimensions that are neither pooled nor heterogeneous once per individual,
+        then the names the population model has to publish after the history so far (Lean model)"""
+        try:
+            exp_names, exp_ids, ref_free = expected_names()
+            names_c = hll.get_parameter_names()
+            if names_m is not None:
+                ctx.agree('C02.names', names_c, names_m, inp)
+                # (with fixed population parameters the model's None-block is cut to the free ones: C08)
+                ctx.agree('C02.ids', hll.get_id(), ids_m[:nb_m] + [None] * n_free, inp)
+                ctx.agree('C02.n_parameters', hll.n_parameters(), nb_m + n_free, inp)
+                ctx.agree('C02.n_bottom', hll.n_parameters() - hll.n_parameters(exclude_bottom_level=True), nb_m,
+                          inp)
+            ctx.agree('C02.population_names', list(pm.get_parameter_names()), ref_free, inp)
+            # --- the property on the real code
+            ctx.spec('C02.names_describe_positions' + stage, names_c == exp_names, inp,
+                     {'chi': names_c, 'expected': exp_names})
+            ctx.spec('C02.ids_describe_positions' + stage, list(hll.get_id()) == exp_ids, inp,
+                     {'chi': list(hll.get_id()), 'expected': exp_ids})
+            with_ids = hll.get_parameter_names(include_ids=True)
+            want = [(i + ' ' + n) if i else n for i, n in zip(exp_ids, exp_names)]
+            ctx.spec('C02.names_with_ids' + stage, with_ids == want, inp, {'chi': with_ids, 'expected': want})
+            top_only = hll.get_parameter_names(exclude_bottom_level=True)
+            ctx.spec('C02.names_describe_positions' + stage, top_only == ref_free, inp,
+                     {'chi_exclude_bottom_level': top_only, 'expected': ref_free})
+            ctx.spec('C02.n_parameters' + stage, hll.n_parameters() == len(exp_names) == len(params) and
+                     hll.n_parameters(exclude_bottom_level=True) == n_free, inp)
+        except Exception as e:  # noqa
+            ctx.spec('C02.names_ids_raise' + stage, False, inp, {'raised': repr(e)[:300]})
+
+    observe_names('', names_m)
     sp = spec_hier(subs, n_ids, bottom, top_full, cov, lls)
     if sp is not None:
         total, psi_s = sp
@@ -351,6 +449,51 @@ def run_case(ctx, chi, rng, n_ids, subs, tag='gen'):
             pv = float(post(params))
         want = float(prior(top_full[free_mask])) + v
         ctx.spec('C02.posterior', core.close(pv, want) or (math.isinf(v) and pv == v), inp, {'post': pv, 'want': want})
+        try:
+            exp_names, exp_ids, ref_free = expected_names()
+            got = (list(post.get_parameter_names()), list(post.get_id()),
+                   list(post.get_parameter_names(exclude_bottom_level=True)),
+                   list(post.get_parameter_names(include_ids=True)))
+            want_n = (exp_names, exp_ids, ref_free, [(i + ' ' + n) if i else n for i, n in zip(exp_ids, exp_names)])
+            ctx.spec('C02.posterior_names_and_ids', got == want_n and post.n_parameters() == len(exp_names), inp,
+                     {'chi': got, 'expected': want_n})
+        except Exception as e:  # noqa
+            ctx.spec('C02.posterior_names_and_ids', False, inp, {'raised': repr(e)[:300]})
+    # --- renaming and going back to the defaults while the hierarchical likelihood is in use: the names move
+    # with the calls, the positions (and so the value at `params`) do not
+    if history or ctx.cases % 5 == 0:
+        target = hll.get_population_model() if rng.random() < 0.5 else pm
+        steps = [['rename', 'reset'], ['reset'], ['rename'], ['dims', 'reset'], ['rename', 'dims']][
+            int(rng.choice(5, p=[0.45, 0.2, 0.15, 0.1, 0.1]))]
+        for step in steps:
+            try:
+                if step == 'rename':
+                    new = ['late%d' % j for j in range(n_free)]
+                    target.set_parameter_names(new)
+                    if reduced:
+                        nh.log(5, [not bool(f) for f in free_mask], new)
+                    else:
+                        nh.log(1, new)
+                elif step == 'dims':
+                    dims = ['latex%d' % j for j in range(D)]
+                    target.set_dim_names(dims)
+                    nh.log(2, dims)
+                else:
+                    if rng.random() < 0.5:
+                        target.set_parameter_names(None)
+                    else:
+                        target.set_parameter_names()
+                    nh.log(0)
+                inp['name_history'] = [list(o) for o in nh.ops]
+                with np.errstate(all='ignore'):
+                    v_after = float(hll(params))
+            except Exception as e:  # noqa
+                ctx.spec('C02.names_ids_raise/after_' + step, False, inp, {'raised': repr(e)[:300]})
+                break
+            observe_names('/after_' + step)
+            ctx.spec('C02.value_independent_of_names/after_' + step,
+                     v_after == v or (math.isnan(v_after) and math.isnan(v)) or core.close(v_after, v), inp,
+                     {'before': v, 'after': v_after})
 
 
 def exhaustive(ctx, chi):
@@ -364,7 +507,7 @@ def exhaustive(ctx, chi):
                 continue
             k += 1
             rng = np.random.default_rng([ctx.seed, 2, k])
-            run_case(ctx, chi, rng, int(rng.integers(1, 4)), list(combo), tag='exhaustive')
+            ctx.guard(run_case, ctx, chi, rng, int(rng.integers(1, 4)), list(combo), tag='exhaustive')
 
 
 def corpus(ctx, chi):
@@ -377,7 +520,7 @@ def corpus(ctx, chi):
     ]
     for j, (n_ids, subs) in enumerate(cases):
         for rep in range(2):
-            run_case(ctx, chi, np.random.default_rng([ctx.seed, 1, j, rep]), n_ids, subs, tag='corpus')
+            ctx.guard(run_case, ctx, chi, np.random.default_rng([ctx.seed, 1, j, rep]), n_ids, subs, tag='corpus')
 
 
 def run(ctx):
